@@ -320,6 +320,69 @@ struct Odd
         return false;
     }
 };
+// Trivially copy-constructible, but NOT trivially copyable: the move constructor is user-provided and empties its source.
+// Relocation and moves have to go through it (bytewise relocation leaves the source unchanged and is not counted).
+struct CopyTrivMove8
+{
+    int32_t v = 0;
+    int32_t tag = 0x5A5A;
+    static inline uint64_t move_constructions = 0;
+    CopyTrivMove8() = default;
+    explicit CopyTrivMove8(int32_t x) : v(x) {}
+    CopyTrivMove8(const CopyTrivMove8&) = default;
+    CopyTrivMove8(CopyTrivMove8&& o) noexcept : v(o.v), tag(o.tag)
+    {
+        o.v = MOVED;
+        ++move_constructions;
+    }
+    CopyTrivMove8& operator=(const CopyTrivMove8&) = default;
+    CopyTrivMove8& operator=(CopyTrivMove8&& o) noexcept
+    {
+        v = o.v;
+        if (this != &o) o.v = MOVED;
+        return *this;
+    }
+    friend bool operator==(const CopyTrivMove8& l, const CopyTrivMove8& r) { return l.v == r.v; }
+    friend bool operator!=(const CopyTrivMove8& l, const CopyTrivMove8& r) { return l.v != r.v; }
+    friend bool operator<(const CopyTrivMove8& l, const CopyTrivMove8& r) { return l.v < r.v; }
+};
+static_assert(std::is_trivially_copy_constructible_v<CopyTrivMove8> && !std::is_trivially_copyable_v<CopyTrivMove8> && !std::is_trivially_move_constructible_v<CopyTrivMove8>);
+
+// Trivially copyable, but unary & is overloaded (a handle type): the address of such an object is std::addressof(x), `&x`
+// is something else.
+struct Amp8
+{
+    uint32_t gen = 0;
+    uint32_t id = 0;
+    const uint32_t* operator&() const noexcept { return std::addressof(id); }
+    uint32_t* operator&() noexcept { return std::addressof(id); }
+    friend bool operator==(const Amp8& l, const Amp8& r) { return l.gen == r.gen && l.id == r.id; }
+    friend bool operator!=(const Amp8& l, const Amp8& r) { return !(l == r); }
+    friend bool operator<(const Amp8& l, const Amp8& r) { return l.gen != r.gen ? l.gen < r.gen : l.id < r.id; }
+};
+static_assert(std::is_trivially_copyable_v<Amp8> && sizeof(Amp8) == 8);
+
+// Pointers to a base class that does not sit at offset 0 of the most derived object: converting Derived* to SecondBase*
+// adjusts the address, copying the bits does not.
+struct FirstBase
+{
+    int64_t first = 1;
+};
+struct SecondBase
+{
+    int64_t second = 2;
+};
+struct Derived : FirstBase, SecondBase
+{
+    int64_t own = 3;
+};
+inline Derived* derived_pool()
+{
+    static Derived pool[128];
+    return pool;
+}
+using BasePtr = SecondBase*;
+
 using B5 = Odd<uint8_t, 5>;
 using B6 = Odd<uint16_t, 3>;
 using B20 = Odd<uint32_t, 5>;
@@ -436,6 +499,47 @@ struct Codec<Odd<U, K>>
 };
 
 template <>
+struct Codec<CopyTrivMove8>
+{
+    static CopyTrivMove8 make(int64_t v) { return CopyTrivMove8{static_cast<int32_t>(v)}; }
+    static int64_t read(const CopyTrivMove8& x) { return x.tag == 0x5A5A ? x.v : -777; }
+    static int64_t moved(int64_t) { return MOVED; }
+};
+
+template <>
+struct Codec<Amp8>
+{
+    static Amp8 make(int64_t v)
+    {
+        Amp8 r;
+        r.id = static_cast<uint32_t>(v);
+        r.gen = static_cast<uint32_t>(v) * 7u + 1u;
+        return r;
+    }
+    static int64_t read(const Amp8& x) { return x.gen == x.id * 7u + 1u ? static_cast<int64_t>(x.id) : -778; }
+    static int64_t moved(int64_t v) { return v; }
+};
+
+template <>
+struct Codec<BasePtr>
+{
+    // value v <-> pointer to the SecondBase subobject of pool object v mod 127 (+1), 0 <-> null
+    static BasePtr make(int64_t v)
+    {
+        const auto k = static_cast<uint64_t>(v) % 128;
+        return k == 0 ? nullptr : static_cast<SecondBase*>(derived_pool() + k);
+    }
+    static int64_t read(BasePtr p)
+    {
+        if (!p) return 0;
+        for (int64_t k = 1; k < 128; ++k)
+            if (static_cast<SecondBase*>(derived_pool() + k) == p) return k;
+        return -779;  // not the address of any SecondBase subobject of the pool (e.g. unadjusted Derived* bits)
+    }
+    static int64_t moved(int64_t v) { return v; }
+};
+
+template <>
 struct Codec<Mod8>
 {
     static Mod8 make(int64_t v) { return Mod8{static_cast<uint8_t>(v)}; }
@@ -527,6 +631,9 @@ const char* type_name()
     else if constexpr (std::is_same_v<T, B3>) return "B3";
     else if constexpr (std::is_same_v<T, B12>) return "B12";
     else if constexpr (std::is_same_v<T, Mod8>) return "M8";
+    else if constexpr (std::is_same_v<T, CopyTrivMove8>) return "Ctm8";
+    else if constexpr (std::is_same_v<T, Amp8>) return "Amp8";
+    else if constexpr (std::is_same_v<T, BasePtr>) return "bptr";
     else if constexpr (std::is_same_v<T, B5>) return "B5";
     else if constexpr (std::is_same_v<T, B6>) return "B6";
     else if constexpr (std::is_same_v<T, B20>) return "B20";
